@@ -9,10 +9,10 @@ def sh(cmd, cwd=None, timeout=3000):
     r = subprocess.run(cmd, shell=True, capture_output=True, text=True, cwd=cwd, timeout=timeout)
     return r.returncode, r.stdout + r.stderr
 
-def verify(prop, x):
-    wt = f"/tmp/wt_{prop}"
+def verify(prop, x, wave=""):
+    wt = f"/tmp/wt{wave}_{prop}"
     sd = f"{wt}/seeded_{x}"
-    park = f"/tmp/park_{prop}"
+    park = f"/tmp/park{wave}_{prop}"
     os.makedirs(park, exist_ok=True)
     for f in os.listdir(f"{wt}/tests"):
         if f.startswith("seeded_demo"):
@@ -29,19 +29,20 @@ def verify(prop, x):
     failed = any(("error" in l) or ("; 0 failed" not in l) for l in lines)
     res["existing_tests_pass_with_change"] = (not failed) and passed >= 45
     res["existing_passed"] = passed
+    feat = "--features actix-web,axum " if prop == "C20" else ""
     shutil.copy(f"{sd}/demo.rs", f"{wt}/tests/seeded_demo_{x}.rs")
-    rc, out = sh(f"cargo test --offline --test seeded_demo_{x} 2>&1 | grep -E '^test result|^error'", cwd=wt)
+    rc, out = sh(f"cargo test --offline {feat}--test seeded_demo_{x} 2>&1 | grep -E '^test result|^error'", cwd=wt)
     res["demo_fails_with_change"] = ("FAILED" in out) or ("error" in out and "test result" not in out)
     res["demo_with_change"] = out.strip()[-200:]
     sh("git checkout -- src derive", cwd=wt)
-    rc, out = sh(f"cargo test --offline --test seeded_demo_{x} 2>&1 | grep -E '^test result|^error'", cwd=wt)
-    res["demo_passes_without_change"] = "test result: ok" in out and "FAILED" not in out
+    rc, out = sh(f"cargo test --offline {feat}--test seeded_demo_{x} 2>&1 | grep -E '^test result|^error'", cwd=wt)
+    res["demo_passes_without_change"] = "test result: ok" in out and "FAILED" not in out and "ok. 0 passed" not in out
     res["demo_without_change"] = out.strip()[-200:]
     os.remove(f"{wt}/tests/seeded_demo_{x}.rs")
     ok = res["existing_tests_pass_with_change"] and res["demo_fails_with_change"] and res["demo_passes_without_change"]
     res["confirmed"] = ok
     if ok:
-        dst = f"/verif/seeded/{prop}-{x}"
+        dst = f"/verif/seeded/{prop}-{wave}{x}"
         os.makedirs(dst, exist_ok=True)
         shutil.copy(f"{sd}/patch.diff", f"{dst}/patch.diff")
         shutil.copy(f"{sd}/demo.rs", f"{dst}/demo.rs")
@@ -77,7 +78,7 @@ def detect(d, checks):
 
 if __name__ == "__main__":
     if sys.argv[1] == "verify":
-        verify(sys.argv[2], sys.argv[3])
+        verify(sys.argv[2], sys.argv[3], sys.argv[4] if len(sys.argv) > 4 else "")
     else:
         d = sys.argv[2]
         checks = sys.argv[3:] or [d.split("-")[0]]
